@@ -68,7 +68,11 @@ def purity_history(seed, n):
     before = registry_snapshot()
     pool16 = [(rng.getrandbits(16), rng.choice([0, 0, 1, 4, 5, 6, 8, 2, 200])) for _ in range(n // 8)]
     pool24 = [(rng.getrandbits(24), rng.choice([0, 0, -1, 2, 4, 5, 9])) for _ in range(n // 8)]
-    ev16, ev24 = [], []
+    ev16, ev24, kept = [], [], []
+    # event frames under the ambiguous / unknown decodings take part as well (their results must stay what they were)
+    pool24 += [((rng.randrange(64) << 17) | (1 << 15) | (rng.randrange(32) << 10) | rng.randrange(1024), rng.choice([0, -1]))
+               for _ in range(n // 16)]
+    pool24 += [((rng.randrange(64) << 17) | (rng.choice([0, 2, 7, 31]) << 10) | rng.randrange(1024), 0) for _ in range(n // 16)]
     ctor_classes = [c for c in Command._commands]
     for pos in range(n):
         r = rng.random()
@@ -77,7 +81,9 @@ def purity_history(seed, n):
             ev16.append({"key": dt * 65536 + f, "cell": cmdrec.dec_cell(16, f, dt), "pos": pos})
         elif r < 0.8:
             f, mid = rng.choice(pool24)
-            ev24.append({"key": f * 64 + (mid + 1), "cell": cmdrec.dec_cell(24, f, 0, get_map(mid)), "pos": pos})
+            keep = []
+            ev24.append({"key": f * 64 + (mid + 1), "cell": cmdrec.dec_cell(24, f, 0, get_map(mid), keep), "pos": pos})
+            kept.extend((f, mid, o, fo) for o, fo in keep)
         else:
             c = rng.choice(ctor_classes)
             for args in ((address.GearShort(rng.randrange(64)),), (address.DeviceShort(rng.randrange(64)),),
@@ -88,6 +94,9 @@ def purity_history(seed, n):
                     break
                 except Exception:
                     continue
+    # every object decoded earlier is asked again at the end: a later decode must not have changed it
+    for f, mid, o, fo in kept:
+        ev24.append({"key": f * 64 + (mid + 1), "cell": cmdrec.obj_cell(o, fo, 24, f), "pos": n})
     after = registry_snapshot()
     recs = []
     for evs in (ev16, ev24):
